@@ -458,6 +458,9 @@ class Oracle:
         if t not in ("stablehlo", "xla_client"):
             return
         g = req["g"]
+        if rec.get("tag") == "history-only":
+            self.bump(self.stats, "texts_of_top_down_requests_not_judged")
+            return
         if req["func"].startswith("gen:") and not self.is_baseline:
             # generated programs are judged differentially: flagged only if the same request, made alone on a
             # fresh context without faults, passes the same oracle (program-dimension defects are not claimed)
